@@ -382,11 +382,11 @@ static void extremes(unsigned long long& unit)
 						}
 				}
 			}
-	// (c) every integer axis (i,j,k) != 0 with |i|,|j|,|k| <= N, in batches, each batch in a child with a time limit: the child
+	// (c) every integer axis (i,j,k) != 0 with |i|,|j|,|k| <= N (24; thorough 64), in batches, each batch in a child with a time limit: the child
 	// announces the axis before the call, so an axis on which Rotation_Matrix never returns is named
 	// (second lattice: the same indices mapped to generic binary fractions, x = 0.61803398875*i + 0.137 and so on, so that the
 	// normalisation meets generic roundings instead of exactly representable sums of squares)
-	int N = mc::thorough() ? 40 : 24;
+	int N = mc::thorough() ? 64 : 24;
 	for(int lattice = 0; lattice < 2; lattice++)
 	for(int i = -N; i <= N; i++)
 	{
